@@ -386,3 +386,23 @@ package bitcoin_reader
 //@   loop 2
 //@     modifies allchans(*wire.MsgTx), ghost("processed"), ghost("saved")
 //@     invariant ghostv("processed", 0) - atentry(ghostv("processed", 0)) == recvd(m.txChannel) - atentry(recvd(m.txChannel)) && ghostv("saved", 0) - atentry(ghostv("saved", 0)) <= ghostv("processed", 0) - atentry(ghostv("processed", 0)) && m.txChannel == atentry(m.txChannel) && txProcessor != nil
+
+// GetTxRequests: a received transaction is never requested again; a returned txid was announced by this node.
+//@ func (*TxManager).GetTxRequests
+//@   requires txmOK(m)
+//@   ensures [C06.retry-never-received] forall(i, 0, len(result0), exists(j, 0, 256, has(m.txMaps[j].txs, result0[i]) && m.txMaps[j].txs[result0[i]] != nil && m.txMaps[j].txs[result0[i]].Received == nil))
+//@   ensures [C06.no-error] result1 == nil
+//@   modifies allof(TxData.LastRequested), allof(TxData.NodeIDs), allof(TxData.RWMutex), allof(txMap.RWMutex), allof(TxManager.RWMutex), allelems(uuid.UUID)
+//@   loop 1
+//@     modifies elems(indexes)
+//@     invariant (-1 <= rangeindex && rangeindex < len(indexes)) || (len(indexes) == 0 && rangeindex == -1)
+//@     invariant len(indexes) == 256 && forall(k, 0, rangeindex+1, indexes[k] == k)
+//@   loop 2
+//@     modifies allof(TxData.LastRequested), allof(TxData.NodeIDs), allof(TxData.RWMutex), allof(txMap.RWMutex), allof(TxManager.RWMutex), allelems(uuid.UUID), elems(result)
+//@     invariant (-1 <= rangeindex && rangeindex < len(indexes)) || (len(indexes) == 0 && rangeindex == -1)
+//@     invariant len(indexes) == 256 && forall(k, 0, len(indexes), 0 <= indexes[k] && indexes[k] < 256) && sameregion(result) && txmOK(m)
+//@     invariant forall(i, 0, len(result), exists(j, 0, 256, has(m.txMaps[j].txs, result[i]) && m.txMaps[j].txs[result[i]] != nil && m.txMaps[j].txs[result[i]].Received == nil))
+//@   loop 3
+//@     modifies allof(TxData.LastRequested), allof(TxData.NodeIDs), allof(TxData.RWMutex), allelems(uuid.UUID), elems(result)
+//@     invariant sameregion(result) && txmOK(m) && 0 <= index && index < 256 && txMap == m.txMaps[index]
+//@     invariant forall(i, 0, len(result), exists(j, 0, 256, has(m.txMaps[j].txs, result[i]) && m.txMaps[j].txs[result[i]] != nil && m.txMaps[j].txs[result[i]].Received == nil))
